@@ -128,7 +128,7 @@ def faults():
             add("hed-entry-wrong-type", TYPE_CODES, set_at(B, (col, "HED"), v))
     # 2 categorical value that is not a string
     for col, key in (("cat", "a"), ("cat", "b"), ("other", "x"), ("other", "y")):
-        for v in (["Red"], 3, {"q": "Red"}, None, ""):
+        for v in (["Red"], 3, {"q": "Red"}, None, "", 0, False, [], {}):
             add("category-value-wrong-type", TYPE_CODES, set_at(B, (col, "HED", key), v))
     # 3 value column with zero / two '#'
     add("value-column-two-placeholders", {"PLACEHOLDER_INVALID"}, set_at(B, ("val", "HED"), "Label/#, Description/#"))
@@ -174,7 +174,8 @@ def faults():
         add("na-category-key", {"SIDECAR_INVALID"}, d)
     # 7 unbalanced braces
     for col, key in (("cat", "a"), ("cat", "b"), ("other", "x")):
-        for s in ("Red, {val", "Red, val}", "{{val}}, Red", "{val}}, Red", "}val{, Red", "Red, {"):
+        for s in ("Red, {val", "Red, val}", "{{val}}, Red", "{val}}, Red", "}val{, Red", "Red, {", "Red}, {val}",
+                  "Red}, ({val}, Green)", "}, {val}"):
             add("braces-unbalanced", {"SIDECAR_BRACES_INVALID"}, set_at(B, (col, "HED", key), s))
     add("braces-unbalanced", {"SIDECAR_BRACES_INVALID"}, set_at(B, ("val", "HED"), "Label/#, {other"))
     # 8 reference to a column that does not exist / has no HED
